@@ -176,7 +176,23 @@ def g_component_range(fb, body, site):
     return (True, why) if good else (False, "the mapped comparison is not `len <= i`")
 
 
+def g_char_boundary_range(fb, body, site):
+    """next_char_boundary: the searched offsets must cover 1..len (a boundary exists at most 4 bytes ahead, and at len)."""
+    from . import dom as _dom, mir as _mir
+    org = _dom.Origins(body)
+    for bi, t in _mir.calls(body):
+        if span_eq(t["span"], site["span"]) and t["args"] and _mir.callee_path(t) == site.get("what_path"):
+            term = org.op_term(t["args"][0])
+            m = re.match(r"^std::iter::Iterator::find\(std::ops::Range::Range\{(\d+)_usize, core::str::<impl str>::len\(param:\w+\)\}, .*\)$", term) or \
+                re.match(r"^std::iter::Iterator::find\(std::ops::RangeInclusive::<Idx>::new\((\d+)_usize, (?:4|[5-9]|\d\d+)_usize\), .*\)$", term)
+            if m and int(m.group(1)) <= 1:
+                return True, "searches offsets 1..len(text)"
+            return False, "the searched offsets do not cover every possible distance to the next char boundary: %s" % term[:120]
+    return False, "site not found"
+
+
 GUARDS = {
+    "char_boundary_range": g_char_boundary_range,
     "none": g_none,
     "const_operands": g_const_operands,
     "bits_sum": g_bits_sum,
